@@ -442,7 +442,12 @@ fn lex_block_comment(l: &mut Lexer<'_>, index: usize) -> Option<CommentedTokenTr
     let mut unclosed_indices = vec![index];
 
     let unclosed_multiline_comment = |l: &Lexer<'_>, unclosed_indices: Vec<_>| {
-        let span = span(l, *unclosed_indices.last().unwrap(), l.src.text.len() - 1);
+        // last character may not be a unicode boundary
+        let mut end = l.src.text.len() - 1;
+        while !l.src.text.is_char_boundary(end) {
+            end -= 1;
+        }
+        let span = span(l, *unclosed_indices.last().unwrap(), end);
         let kind = LexErrorKind::UnclosedMultilineComment { unclosed_indices };
         error(l.handler, LexError { kind, span });
         None
@@ -595,13 +600,17 @@ fn lex_char(
         }
 
         // Emit the expected closing quote error.
+        // The span covers the source text from the second character up to and including
+        // the closing quote. It must be taken from the source positions, because the byte
+        // length of the parsed `string` differs from that of the source text when the
+        // literal contains escapes or multi-byte characters.
         error(
             l.handler,
             LexError {
                 kind: LexErrorKind::ExpectedCloseQuote {
                     position: next_index,
                 },
-                span: span(l, next_index, next_index + string.len()),
+                span: span_until(l, next_index),
             },
         );
 
@@ -644,8 +653,9 @@ fn parse_escape_code(l: &mut Lexer<'_>) -> core::result::Result<char, Option<Err
             match l.stream.next() {
                 None => return Err(None),
                 Some((_, '{')) => (),
-                Some((_, unexpected_char)) => {
-                    let span = span_one(l, index, unexpected_char);
+                Some(_) => {
+                    // `index` is the position of the `u`, not of the unexpected character.
+                    let span = span_one(l, index, 'u');
                     let kind = LexErrorKind::UnicodeEscapeMissingBrace { position: index };
                     return error(kind, span);
                 }
@@ -1116,6 +1126,20 @@ mod tests {
             })))
         );
         assert_eq!(tts.next(), None);
+    }
+
+    #[test]
+    fn lex_error_spans_with_multibyte_chars() {
+        // None of these may panic when creating the error spans.
+        for input in ["/*é", "\"\\ué\"", "'😀b'", "'éb'日", "'\\u{1F600}b'"] {
+            let handler = Handler::default();
+            let _ = lex(&handler, input.into(), 0, input.len(), None);
+            let (errors, _, _) = handler.consume();
+            assert!(!errors.is_empty());
+            for err in errors {
+                assert_matches!(err, CompileError::Lex { error } if input.get(error.span.start()..error.span.end()).is_some());
+            }
+        }
     }
 
     use super::is_valid_identifier_or_path as valid;
